@@ -27,6 +27,12 @@ CLAIMED = {
  "C09": dict(level="exploration", technique="generated-program compile testing: repository CLI + real rustc in module and component mode",
              text="Every generated program (wide profile: arities up to 9, constants, nullary predicates, enums) is compiled by the repository CLI; accepted programs must compile with rustc and link against the runtime in both build modes and run an empty history.",
              note="Identifier pools avoid Rust keywords and generator-emitted names, as the property states.", ref="3/C09"),
+ "C11": dict(level="exploration", technique="mutation-based fuzzing of source text (token, line-ending and byte level) with a diagnostic-grammar oracle",
+             text="Corpus (generated programs, repository theories and error tests) x 1-3 mutations per input; the compiler must exit 0 or 1, and every diagnostic must parse, name a line inside the file and print complete input lines containing it.",
+             note="Inputs are valid UTF-8 of at most 8 KB; time-outs are inconclusive. Coverage-guided fuzzing of the compiler was rejected (DESIGN section 6).", ref="3/C11"),
+ "C12": dict(level="fault_enumeration", technique="stateful property testing over edit/build histories with injected faults: enumerated kill points (LD_PRELOAD), failing and dying rustc",
+             text="Histories over several versions of a theory with builds killed before their k-th file-system mutation (k enumerated for short histories), failing/dying rustc; after every successful build the complete output and component trees are compared with a clean build; no-op builds must not touch the file system.",
+             note="Crash = process death between two file-system calls of the compiler (and inside rustc's output write); page-cache loss is not modelled. A stand-in for rustc produces byte-comparable libraries.", ref="3/C12"),
  "C13": dict(level="exploration", technique="differential testing of repeated compilations (threads, directories, cwd, environment) with byte comparison",
              text="Each program is compiled 12 times (module/component; repeat; RAYON_NUM_THREADS 1/2/3/16; different absolute and relative directories; different environment) and all generated files and digests are compared byte for byte.",
              note="Component libraries are produced by a deterministic stand-in for rustc.", ref="3/C13"),
